@@ -147,7 +147,7 @@ Hypothesis Hoff0al : off0 mod 32 = 0.
 Hypothesis Hmtu32 : mtu mod 32 = 0.
 Variables (F : flavour) (pinv : Z -> Z -> fl_state F -> Prop).
 Hypothesis FK : flavour_ok F pinv.
-Variables (m : mode) (rv : Z -> Z -> Z) (s0 : sys F).
+Variables (m : mode) (rv : Z -> Z -> list Z -> Z) (s0 : sys F).
 Hypothesis H0 : sys_rep tlen mtu ses n0 off0 F pinv s0 spec0.
 
 Let gg := sgeom_of tlen mtu n0 off0.
@@ -201,7 +201,7 @@ Definition handover_ok (init tlen mtu n0 off0 : Z) : Prop :=
   geometry_ok init tlen mtu /\ mtu mod 32 = 0 /\ 0 <= n0 < two31 /\ 0 <= off0 <= tlen /\ off0 mod 32 = 0.
 
 Section SharedTop.
-Variables (init tlen mtu ses str n0 off0 : Z) (m : mode) (rv : Z -> Z -> Z).
+Variables (init tlen mtu ses str n0 off0 : Z) (m : mode) (rv : Z -> Z -> list Z -> Z).
 Hypothesis HO : handover_ok init tlen mtu n0 off0.
 
 Let s0 := sys0_shared init tlen mtu ses str n0 off0.
@@ -230,7 +230,7 @@ End SharedTop.
 
 (* ---- ExclusivePublication ---- *)
 Section ExclTop.
-Variables (init tlen mtu ses str n0 off0 : Z) (m : mode) (rv : Z -> Z -> Z).
+Variables (init tlen mtu ses str n0 off0 : Z) (m : mode) (rv : Z -> Z -> list Z -> Z).
 Hypothesis HO : handover_ok init tlen mtu n0 off0.
 Variable s0 : sys exclusive.
 Hypothesis Hs0 : sys0_exclusive init tlen mtu ses str n0 off0 = Ok s0.
